@@ -14,6 +14,7 @@ package main
 import (
 	"fmt"
 	"os"
+	"runtime"
 	"sync"
 	"sync/atomic"
 	"time"
@@ -39,11 +40,27 @@ var stalledHistories int32
 // guard runs f and returns when f returns; a panic of f is re-raised in the caller. If f does not return within the
 // deadline described above, guard panics with a stallError; f's goroutine is left behind (blocked inside the library).
 func guard(what string, f func()) {
-	done := make(chan interface{}, 1)
+	var finished int32
+	var pv interface{}
+	done := make(chan struct{}, 1)
 	go func() {
-		defer func() { done <- recover() }()
+		defer func() {
+			pv = recover()
+			atomic.StoreInt32(&finished, 1)
+			done <- struct{}{}
+		}()
 		f()
 	}()
+	// fast path: the new goroutine is next in line on this processor; yielding lets it run the call to its end
+	for i := 0; i < 4; i++ {
+		runtime.Gosched()
+		if atomic.LoadInt32(&finished) == 1 {
+			if pv != nil {
+				panic(pv)
+			}
+			return
+		}
+	}
 	start := time.Now()
 	good := 0
 	timer := time.NewTimer(stallTick)
@@ -51,9 +68,9 @@ func guard(what string, f func()) {
 	for {
 		t0 := time.Now()
 		select {
-		case p := <-done:
-			if p != nil {
-				panic(p)
+		case <-done:
+			if pv != nil {
+				panic(pv)
 			}
 			return
 		case <-timer.C:
@@ -63,13 +80,11 @@ func guard(what string, f func()) {
 		}
 		if good >= stallGoodTicks || time.Since(start) > stallHardCap {
 			// one last look: the call may have returned while the verdict was being formed
-			select {
-			case p := <-done:
-				if p != nil {
-					panic(p)
+			if atomic.LoadInt32(&finished) == 1 {
+				if pv != nil {
+					panic(pv)
 				}
 				return
-			default:
 			}
 			panic(stallError{what: what, waited: time.Since(start)})
 		}
